@@ -229,14 +229,14 @@ def unfocus_fixed_sampling_backprop(wavefunction, input_dx, prop_dist,
     if not isinstance(output_samples, Iterable):
         output_samples = (output_samples, output_samples)
 
-    dias = [output_dx * s for s in output_samples]
-    dia = max(dias)
-    Q = Q_for_sampling(input_diameter=dia,
-                       prop_dist=prop_dist,
-                       wavelength=wavelength,
-                       output_dx=input_dx)  # not a typo
-
-    Q /= wavefunction.shape[0] / output_samples[0]
+    # the same Q, per axis, as unfocus_fixed_sampling: output_samples is the
+    # shape of the forward input (focal plane) and wavefunction.shape the
+    # shape of the forward output (pupil)
+    Q = tuple(Q_for_sampling(input_diameter=output_dx*so,
+                             prop_dist=prop_dist,
+                             wavelength=wavelength,
+                             output_dx=input_dx)  # not a typo
+              / (si / so) for si, so in zip(output_samples, wavefunction.shape))
 
     if shift[0] != 0 or shift[1] != 0:
         shift = (shift[0]/output_dx, shift[1]/output_dx)
